@@ -121,6 +121,13 @@ CLAIMS = {
         "note": "Bounded: two invocations, repeated members <= 2, strings <= 2 chars, the listed mismatch family. Trusted: rustfmt and proc_macro2's fallback (generator run outside the compiler), E2 std models (HashMap as association list). Outside: the proc-macro glue in a2lmacros/src/lib.rs, other invocations, integer sequences (generated code does not compile).",
         "technique": "SMT-based bounded symbolic execution of the MIR of freshly generated code (z3 bit-vectors/FP for scalar members, fork per member kind / instance), native replay",
     },
+    "C04": {
+        "engine": "E2-mirsym",
+        "text": "The reference grammar (a frozen copy of the specification DSL) is turned into documents by a generator: one per (parent, element) pair in its specified form - at version 1.71 and exactly at the lower version bound of every version-gated element and enum value - and one per single deviation (last parameter missing, optional element twice, wrong /begin../end form, unknown enum value, element or enum value newer than the declared version, deprecated element, required element missing). The whole loader (tokenizer, generated parser of every element on the path, writer) is executed by the symbolic executor on the MIR of the current tree for every document in strict and non-strict mode: the specified form loads without any diagnostic and every value is written back; each deviation produces its diagnostic class (hard error in both modes, or strict error / non-strict warning, or deprecation notice).",
+        "design_ref": "DESIGN.md section 4 C04",
+        "note": "The deciding step for the structural deviations is exhaustive execution of a finite, generated document family (1206 documents, 203 of 205 grammar elements) by the symbolic executor - the documents are concrete, so no solver query is involved there; the version gates (101 documents) are decided by the solver with the file version symbolic. Trusted: the frozen DSL as reference grammar and the generator /verif/vf/dslgen.py. Outside: parameter value spaces (C02), combinations of deviations, A2ML / IF_DATA content, whole random documents.",
+        "technique": "bounded symbolic execution of MIR over a generated finite document family (fork per document); version gates decided by z3 with the file version as solver variable; native replay",
+    },
     "C20": {
         "engine": "E2-mirsym x 2 builds",
         "text": "Relational check of two builds of the crate made from the current tree: A = as shipped, B = a2lfile/src/specification.rs replaced by what the in-tree generator (a2lmacros::a2lspec::a2l_specification, run outside the compiler on the DSL in specification_orig.rs) produces now. The same observation harnesses are executed symbolically on the MIR of both builds; every completed path is exported as (input shape, path condition, observations); for every pair of paths over the same input shape z3 is asked for an input that satisfies both path conditions and makes an observation differ (load result, diagnostics, written text). unsat for all pairs = the builds are observationally equal on every input of the bounded families; a model is replayed natively on both builds before it is reported.",
@@ -139,7 +146,6 @@ CLAIMS = {
 
 _PENDING = "check not built yet in this revision of /verif (see DESIGN.md section 7 for the order of work)"
 _NA_FIXED = {
-    "C04": "grammar conformance of ~185 generated parsers against the spec DSL is grammar-driven enumeration with concrete runs; the solver has nothing to decide and neither engine reaches a whole load (DESIGN.md section 4 C04)",
 }
 NOT_APPLICABLE = []
 for i in range(1, 21):
